@@ -306,8 +306,34 @@ impl NodeCtx {
                 for i in 1..=3u64 {
                     addrs.insert(i, Arc::new(format!("127.0.0.1:{}", 1000 + i)));
                 }
-                self.index.send(RaftIndexRequest::SaveMember { member: vec![1, 2, 3], member_after_consensus: None, node_addr: Some(addrs) }).await??;
+                let members: Vec<u64> = op["members"].as_array().map(|a| a.iter().filter_map(|x| x.as_u64()).collect()).unwrap_or_else(|| vec![1, 2, 3]);
+                addrs.retain(|k, _| members.contains(k));
+                self.index.send(RaftIndexRequest::SaveMember { member: members, member_after_consensus: None, node_addr: Some(addrs) }).await??;
                 json!({})
+            }
+            // ---- what the raft core does when the leader streams a snapshot: create, write, finalize
+            "install_snapshot" => {
+                use tokio::io::AsyncWriteExt;
+                let bytes = tokio::fs::read(s(op, "path")).await?;
+                let (id, mut file) = app.raft_store.create_snapshot().await?;
+                file.write_all(&bytes).await?;
+                file.flush().await?;
+                app.raft_store
+                    .finalize_snapshot_installation(op["index"].as_u64().unwrap_or(0), op["term"].as_u64().unwrap_or(1), None, id, file)
+                    .await?;
+                json!({"bytes": bytes.len()})
+            }
+            "membership" => {
+                let m = app.raft_store.get_membership_config().await?;
+                let mut members: Vec<u64> = m.members.iter().copied().collect();
+                members.sort();
+                let mut addrs = serde_json::Map::new();
+                for id in &members {
+                    if let Ok(a) = app.raft_store.get_target_addr(*id).await {
+                        addrs.insert(id.to_string(), json!(a.as_str()));
+                    }
+                }
+                json!({"members": members, "after": m.members_after_consensus.as_ref().map(|x| { let mut v: Vec<u64> = x.iter().copied().collect(); v.sort(); v }), "addrs": addrs})
             }
             "history_seq_probe" => {
                 // where would the config actor continue its history-id sequence? (consumes ids: call after the dumps only)
